@@ -127,6 +127,22 @@ Theorem C18_normalize_classes :
 Proof. exact normalize_classes. Qed.
 Print Assumptions C18_normalize_classes.
 
+(* chooseProxyDialer: for every state reachable by a history (Inv: the state is what the past events say)
+   the outbound finally used is the routing result exactly when the flow is routed again (or arrived
+   marked for control-plane routing), and the dial target handed to the node dialer obeys the decision
+   table for THAT outbound (so a flow re-routed to a built-in outbound is dialled by IP). *)
+Theorem C18_dial_after_reroute :
+  forall (is_ip : str -> bool) mode st evs outbound route_to dst domain ka k6 hr ans,
+    Inv st evs ->
+    let '(o, fin, asked, st') := choose_proxy_dialer is_ip mode st outbound route_to dst domain ka k6 hr ans in
+    let key := if d_is4 dst then ka else k6 in
+    let k := knowledge_now neg_ttl evs key domain (s_now st) in
+    fin = spec_final_outbound is_ip mode (is_reserved outbound) outbound route_to (classify is_ip domain) k /\
+    step_ok is_ip mode evs (s_now st) fin dst domain key o /\
+    Inv st' (evs ++ probe_events domain (s_now st) asked ans).
+Proof. exact dial_ok. Qed.
+Print Assumptions C18_dial_after_reroute.
+
 Open Scope string_scope.
 Open Scope Z_scope.
 (* Non-vacuity: a concrete history exercising verification, resolution, expiry, negative memory, a
